@@ -359,7 +359,7 @@ theorem Quiet_rinv {s : St} (q : Quiet s) : Rinv s.toFState := by
   · rw [q.upResp] at h; cases h
 
 theorem filterPass_trace (c : Cfg) (p : RPhase) (s : St) :
-    (filterPass c p s).trace = s.trace ++ [.rpass p s.cursor (runRecv c.recv p s.toFState).2] := by
+    (filterPass c p s).trace = s.trace ++ [.rpass p (startOf s.toFState p) (runRecv c.recv p s.toFState).2] := by
   simp [filterPass, emit, liftF]
 theorem filterPass_toFState (c : Cfg) (p : RPhase) (s : St) :
     (filterPass c p s).toFState = (runRecv c.recv p s.toFState).1 := by
@@ -581,7 +581,8 @@ theorem deny_noUp (c : Cfg) (n : Nat) : DenyIn (run c n init).trace → NoUp (ru
 /-! ### shape of a step: the only source of receiver passes is a filter `case`, run from the current cursor -/
 
 theorem afterPE_trace_cursor (c : Cfg) (g : St) :
-    (afterPE c g).trace = g.trace ∧ (afterPE c g).cursor = g.cursor ∧ (afterPE c g).rcalls = g.rcalls := by
+    (afterPE c g).trace = g.trace ∧ (afterPE c g).cursor = g.cursor ∧ (afterPE c g).rcalls = g.rcalls ∧
+      (afterPE c g).cphase = g.cphase := by
   by_cases hc : g.cleaned = true
   · rw [afterPE_cleaned c g hc]; simp
   · have hc : g.cleaned = false := by simpa using hc
@@ -604,35 +605,42 @@ theorem afterPE_trace_cursor (c : Cfg) (g : St) :
 
 /-- the step appended no receiver pass and did not move the cursor -/
 def NoPass (s r : St) : Prop :=
-  (∃ evs, r.trace = s.trace ++ evs ∧ ∀ e ∈ evs, isRpass e = false) ∧ r.cursor = s.cursor ∧ r.rcalls = s.rcalls
+  (∃ evs, r.trace = s.trace ++ evs ∧ ∀ e ∈ evs, isRpass e = false) ∧ r.cursor = s.cursor ∧ r.rcalls = s.rcalls ∧
+    r.cphase = s.cphase
 
 /-- the step ran the receiver filters of phase `p` from the current cursor -/
 def OnePass (c : Cfg) (s r : St) : Prop :=
-  ∃ p, recvPhaseOf s.phase = some p ∧ r.trace = s.trace ++ [.rpass p s.cursor (runRecv c.recv p s.toFState).2] ∧
-    r.cursor = (runRecv c.recv p s.toFState).1.cursor ∧ r.rcalls = (runRecv c.recv p s.toFState).1.rcalls
+  ∃ p, recvPhaseOf s.phase = some p ∧
+    r.trace = s.trace ++ [.rpass p (startOf s.toFState p) (runRecv c.recv p s.toFState).2] ∧
+    r.cursor = (runRecv c.recv p s.toFState).1.cursor ∧ r.rcalls = (runRecv c.recv p s.toFState).1.rcalls ∧
+    r.cphase = (runRecv c.recv p s.toFState).1.cphase
 
 theorem NoPass.via (c : Cfg) {s g : St} (h : NoPass s g) : NoPass s (afterPE c g) := by
-  obtain ⟨h1, h2, h3⟩ := afterPE_trace_cursor c g
-  exact ⟨by rw [h1]; exact h.1, by rw [h2]; exact h.2.1, by rw [h3]; exact h.2.2⟩
+  obtain ⟨h1, h2, h3, h4⟩ := afterPE_trace_cursor c g
+  exact ⟨by rw [h1]; exact h.1, by rw [h2]; exact h.2.1, by rw [h3]; exact h.2.2.1, by rw [h4]; exact h.2.2.2⟩
 
-theorem NoPass.same {s g : St} (ht : g.trace = s.trace) (hc : g.cursor = s.cursor) (hr : g.rcalls = s.rcalls) : NoPass s g :=
-  ⟨⟨[], by simp [ht], by simp⟩, hc, hr⟩
+theorem NoPass.same {s g : St} (ht : g.trace = s.trace) (hf : g.toFState.cursor = s.toFState.cursor)
+    (hr : g.toFState.rcalls = s.toFState.rcalls) (hp : g.toFState.cphase = s.toFState.cphase := by rfl) : NoPass s g :=
+  ⟨⟨[], by simp [ht], by simp⟩, hf, hr, hp⟩
 
 theorem NoPass.emit1 {s g : St} (e : Ev) (ht : g.trace = s.trace ++ [e]) (he : isRpass e = false)
-    (hc : g.cursor = s.cursor) (hr : g.rcalls = s.rcalls) : NoPass s g :=
-  ⟨⟨[e], ht, by simp [he]⟩, hc, hr⟩
+    (hc : g.toFState.cursor = s.toFState.cursor) (hr : g.toFState.rcalls = s.toFState.rcalls)
+    (hp : g.toFState.cphase = s.toFState.cphase := by rfl) : NoPass s g :=
+  ⟨⟨[e], ht, by simp [he]⟩, hc, hr, hp⟩
 
 theorem sendLoop_cursor (fs : List SFilter) (idx : Nat) (s : FState) :
-    (sendLoop fs idx s).1.cursor = s.cursor ∧ (sendLoop fs idx s).1.rcalls = s.rcalls := by
+    (sendLoop fs idx s).1.cursor = s.cursor ∧ (sendLoop fs idx s).1.rcalls = s.rcalls ∧
+      (sendLoop fs idx s).1.cphase = s.cphase := by
   induction fs generalizing idx s with
-  | nil => exact ⟨rfl, rfl⟩
+  | nil => exact ⟨rfl, rfl, rfl⟩
   | cons f rest ih =>
     simp only [sendLoop]
     have : ∀ st : FStatus, (applyHandler (senderHandler st) .BeforeRoute { s with scalls := bump s.scalls idx }).cursor = s.cursor ∧
-        (applyHandler (senderHandler st) .BeforeRoute { s with scalls := bump s.scalls idx }).rcalls = s.rcalls := by
+        (applyHandler (senderHandler st) .BeforeRoute { s with scalls := bump s.scalls idx }).rcalls = s.rcalls ∧
+        (applyHandler (senderHandler st) .BeforeRoute { s with scalls := bump s.scalls idx }).cphase = s.cphase := by
       intro st; cases st <;> simp [senderHandler, applyHandler, cleanStream]
     split
-    · simp only []; rw [(ih _ _).1, (ih _ _).2]; exact this _
+    · simp only []; rw [(ih _ _).1, (ih _ _).2.1, (ih _ _).2.2]; exact this _
     · exact this _
     · exact this _
 
@@ -643,9 +651,9 @@ theorem phaseCase_shape (c : Cfg) (s : St) : NoPass s (phaseCase c s) ∨ OnePas
     fun e he => NoPass.emit1 e rfl he rfl rfl
   have pass : ∀ p, recvPhaseOf s.phase = some p → OnePass c s (afterPE c (filterPass c p s)) := by
     intro p hp
-    obtain ⟨h1, h2, h3⟩ := afterPE_trace_cursor c (filterPass c p s)
+    obtain ⟨h1, h2, h3, h4⟩ := afterPE_trace_cursor c (filterPass c p s)
     exact ⟨p, hp, by rw [h1, filterPass_trace], by rw [h2]; simp [filterPass, emit, liftF],
-      by rw [h3]; simp [filterPass, emit, liftF]⟩
+      by rw [h3]; simp [filterPass, emit, liftF], by rw [h4]; simp [filterPass, emit, liftF]⟩
   rcases phase_cases s.phase with h | h | h | h | h | h | h | h | h | h | h | h | h | h | h | h | h | h
   · rw [pc0 c s h]; exact Or.inl (stay _)
   · rw [pc1 c s h]; exact Or.inr (pass _ (by rw [h]; rfl))
@@ -686,9 +694,10 @@ theorem phaseCase_shape (c : Cfg) (s : St) : NoPass s (phaseCase c s) ∨ OnePas
     · exact NoPass.via c hd
   · rw [pc12 c s h]; left
     apply NoPass.via
-    refine ⟨⟨[.spass s.scursor (runSend c.send s.toFState).2], by simp [sendPass, emit, liftF], by simp [isRpass]⟩, ?_, ?_⟩
+    refine ⟨⟨[.spass s.scursor (runSend c.send s.toFState).2], by simp [sendPass, emit, liftF], by simp [isRpass]⟩, ?_, ?_, ?_⟩
     · simp [sendPass, emit, liftF, runSend, (sendLoop_cursor _ _ _).1]
-    · simp [sendPass, emit, liftF, runSend, (sendLoop_cursor _ _ _).2]
+    · simp [sendPass, emit, liftF, runSend, (sendLoop_cursor _ _ _).2.1]
+    · simp [sendPass, emit, liftF, runSend, (sendLoop_cursor _ _ _).2.2]
   · rw [pc13 c s h]; left; split
     · apply NoPass.via
       unfold respHeaders; split
@@ -728,48 +737,50 @@ theorem step_shape (c : Cfg) (s : St) : NoPass s (step c s) ∨ OnePass c s (ste
 
 /-! ### order, once, resume along the run -/
 
-theorem resumeOK_append (cur : Nat) (t evs : List Ev) :
-    resumeOK cur (t ++ evs) ↔ resumeOK cur t ∧ resumeOK (cursorTrace cur t) evs := by
-  induction t generalizing cur with
+theorem resumeOK_append (cur : Nat) (cph : RPhase) (t evs : List Ev) :
+    resumeOK cur cph (t ++ evs) ↔
+      resumeOK cur cph t ∧ resumeOK (cursorTrace cur cph t).1 (cursorTrace cur cph t).2 evs := by
+  induction t generalizing cur cph with
   | nil => simp [resumeOK, cursorTrace]
   | cons e r ih =>
     cases e <;> simp [resumeOK, cursorTrace, ih, and_assoc]
 
-theorem cursorTrace_append (cur : Nat) (t evs : List Ev) :
-    cursorTrace cur (t ++ evs) = cursorTrace (cursorTrace cur t) evs := by
-  induction t generalizing cur with
+theorem cursorTrace_append (cur : Nat) (cph : RPhase) (t evs : List Ev) :
+    cursorTrace cur cph (t ++ evs) = cursorTrace (cursorTrace cur cph t).1 (cursorTrace cur cph t).2 evs := by
+  induction t generalizing cur cph with
   | nil => simp [cursorTrace]
   | cons e r ih => cases e <;> simp [cursorTrace, ih]
 
-theorem resumeOK_noPass (cur : Nat) (evs : List Ev) (h : ∀ e ∈ evs, isRpass e = false) :
-    resumeOK cur evs ∧ cursorTrace cur evs = cur := by
-  induction evs generalizing cur with
+theorem resumeOK_noPass (cur : Nat) (cph : RPhase) (evs : List Ev) (h : ∀ e ∈ evs, isRpass e = false) :
+    resumeOK cur cph evs ∧ cursorTrace cur cph evs = (cur, cph) := by
+  induction evs generalizing cur cph with
   | nil => simp [resumeOK, cursorTrace]
   | cons e r ih =>
     have he := h e (by simp)
-    have hr := fun cur => ih cur (fun x hx => h x (List.mem_cons_of_mem _ hx))
+    have hr := fun cur cph => ih cur cph (fun x hx => h x (List.mem_cons_of_mem _ hx))
     cases e <;> simp [isRpass] at he <;> simp [resumeOK, cursorTrace, hr]
 
 theorem runRecv_mem (chain : List RFilter) (p : RPhase) (s : FState) :
     ∀ iv ∈ (runRecv chain p s).2, ∃ f, chain[iv.1]? = some f ∧ f.phase = p ∧ iv.2 = f.verdictAt (s.rcalls iv.1) := by
   intro iv hiv
-  obtain ⟨f, hf, hle, hp, hv⟩ := recvLoop_mem p (chain.drop s.cursor) s.cursor s iv hiv
+  obtain ⟨f, hf, hle, hp, hv⟩ := recvLoop_mem p (chain.drop (startOf s p)) (startOf s p) s iv hiv
   refine ⟨f, ?_, hp, hv⟩
   rw [List.getElem?_drop] at hf
-  have : s.cursor + (iv.1 - s.cursor) = iv.1 := by omega
+  have : startOf s p + (iv.1 - startOf s p) = iv.1 := by omega
   rw [this] at hf; exact hf
 
 /-- pass-level facts carried along the run -/
 structure Pinv (c : Cfg) (s : St) : Prop where
   passes : ∀ p st invs, Ev.rpass p st invs ∈ s.trace →
     ascFrom st invs ∧ ∀ iv ∈ invs, ∃ f, c.recv[iv.1]? = some f ∧ f.phase = p
-  resume : resumeOK 0 s.trace
-  cursor : s.cursor = cursorTrace 0 s.trace
+  resume : resumeOK 0 .BeforeRoute s.trace
+  cursor : s.cursor = (cursorTrace 0 .BeforeRoute s.trace).1
+  cphase : s.cursor ≠ 0 → s.cphase = (cursorTrace 0 .BeforeRoute s.trace).2
 
 theorem step_Pinv (c : Cfg) (s : St) (h : Pinv c s) : Pinv c (step c s) := by
-  rcases step_shape c s with ⟨⟨evs, ht, hev⟩, hc, _⟩ | ⟨p, _, ht, hc, _⟩
-  · obtain ⟨r1, r2⟩ := resumeOK_noPass (cursorTrace 0 s.trace) evs hev
-    refine ⟨?_, ?_, ?_⟩
+  rcases step_shape c s with ⟨⟨evs, ht, hev⟩, hc, _, hcp⟩ | ⟨p, _, ht, hc, _, hcp⟩
+  · obtain ⟨r1, r2⟩ := resumeOK_noPass (cursorTrace 0 .BeforeRoute s.trace).1 (cursorTrace 0 .BeforeRoute s.trace).2 evs hev
+    refine ⟨?_, ?_, ?_, ?_⟩
     · intro p st invs hm
       rw [ht] at hm
       rcases List.mem_append.mp hm with hm | hm
@@ -777,7 +788,8 @@ theorem step_Pinv (c : Cfg) (s : St) (h : Pinv c s) : Pinv c (step c s) := by
       · have := hev _ hm; simp [isRpass] at this
     · rw [ht, resumeOK_append]; exact ⟨h.resume, r1⟩
     · rw [ht, cursorTrace_append, r2, hc]; exact h.cursor
-  · refine ⟨?_, ?_, ?_⟩
+    · rw [ht, cursorTrace_append, r2, hc, hcp]; exact h.cphase
+  · refine ⟨?_, ?_, ?_, ?_⟩
     · intro q st invs hm
       rw [ht] at hm
       rcases List.mem_append.mp hm with hm | hm
@@ -791,13 +803,23 @@ theorem step_Pinv (c : Cfg) (s : St) (h : Pinv c s) : Pinv c (step c s) := by
     · rw [ht, resumeOK_append]
       refine ⟨h.resume, ?_⟩
       simp only [resumeOK, and_true]
-      exact h.cursor
+      rw [startOf_eq]
+      have hcur : s.toFState.cursor = (cursorTrace 0 .BeforeRoute s.trace).1 := h.cursor
+      by_cases h0 : s.toFState.cursor = 0
+      · rw [← hcur, h0]; simp
+      · have hph : s.toFState.cphase = (cursorTrace 0 .BeforeRoute s.trace).2 := h.cphase h0
+        rw [← hcur, ← hph]
     · rw [ht, cursorTrace_append, hc]
       simp only [cursorTrace]
       exact recvLoop_cursor _ _ _ _
+    · intro hne
+      rw [ht, cursorTrace_append, hcp]
+      simp only [cursorTrace]
+      rw [hc] at hne
+      exact recvLoop_cphase _ _ _ _ hne
 
 theorem init_Pinv (c : Cfg) : Pinv c init :=
-  ⟨fun _ _ _ hm => by simp [init] at hm, trivial, rfl⟩
+  ⟨fun _ _ _ hm => by simp [init] at hm, trivial, rfl, fun h => absurd rfl h⟩
 
 theorem run_Pinv (c : Cfg) (n : Nat) (s : St) (h : Pinv c s) : Pinv c (run c n s) := by
   induction n generalizing s with
